@@ -167,9 +167,10 @@ def HistDisc (K : Nat → Nat → Bool) : Toc → State → List (List Op × End
 
 theorem history_unique (K : Nat → Nat → Bool) (hist : List (List Op × Ending × SEnd)) (t : Toc) (sp : State)
     (hwf : t.WF) (h : Rel t sp) (hinv : KeyInv K sp.docs) (hd : HistDisc K t sp hist) :
-    HistOK t sp hist ∧ ∃ t' sp', lockstep t sp hist = .ok (t', sp') ∧ t'.WF ∧ Rel t' sp' ∧ KeyInv K sp'.docs := by
+    HistOK t sp hist ∧ ∃ t' sp', lockstep t sp hist = .ok (t', sp') ∧ t'.WF ∧ Rel t' sp' ∧ KeyInv K sp'.docs ∧
+      sp'.schema = sp.schema := by
   induction hist generalizing t sp with
-  | nil => exact ⟨trivial, t, sp, rfl, hwf, h, hinv⟩
+  | nil => exact ⟨trivial, t, sp, rfl, hwf, h, hinv, rfl⟩
   | cons x r ih =>
     obtain ⟨ops, e, se⟩ := x
     obtain ⟨he, hp, hfit, hdisc, hrest⟩ := hd
@@ -182,8 +183,14 @@ theorem history_unique (K : Nat → Nat → Bool) (hist : List (List Op × Endin
       | commit => exact hj.inv
       | commitClear => exact hj.inv.sublist (List.sublist_append_right _ _)
       | cancel => exact hinv
-    obtain ⟨hok, t', sp', h2, wf', rel', inv'⟩ := ih t1 _ wf1 rel1 hinv1 (hrest t1 h1)
-    refine ⟨⟨he, hrun, ?_⟩, t', sp', by simp only [lockstep, h1, Except.bind]; exact h2, wf', rel', inv'⟩
+    have hsch1 : (sp.session (t.writer.specOps ops) se).schema = sp.schema := by
+      cases se with
+      | commit => exact hj.schema
+      | commitClear => exact hj.schema
+      | cancel => rfl
+    obtain ⟨hok, t', sp', h2, wf', rel', inv', hs'⟩ := ih t1 _ wf1 rel1 hinv1 (hrest t1 h1)
+    refine ⟨⟨he, hrun, ?_⟩, t', sp', by simp only [lockstep, h1, Except.bind]; exact h2, wf', rel', inv',
+      hs'.trans hsch1⟩
     intro t1' h1'
     rw [h1] at h1'; cases h1'
     exact hok
